@@ -29,7 +29,10 @@ CkElems ==
     <<[op |-> "CErrClear", c |-> 0]>> }
 RECURSIVE CkSeqs(_)
 CkSeqs(n) == IF n = 0 THEN {<<>>} ELSE { e \o t : e \in CkElems, t \in CkSeqs(n - 1) }
-CheckerScripts == { <<LoadOp(<<KOct, KShort, K512>>), CNewOp, CSetKeyOp("HS256", 0)>> \o q : q \in CkSeqs(MaxLen) }
+\* families indexed by the first two elements (MaxLen >= 2): one explicit set of 13^5 sequences costs TLC
+\* minutes to normalise (binary insertion sort), 169 sets of 13^3 do not
+Pre3 == <<LoadOp(<<KOct, KShort, K512>>), CNewOp, CSetKeyOp("HS256", 0)>>
+CheckerFam == [ab \in CkElems \X CkElems |-> { Pre3 \o ab[1] \o ab[2] \o q : q \in CkSeqs(MaxLen - 2) }]
 \* a checker that never had setkey: keys come from the callback, per call
 Unsigned == Tok("none", <<>>, <<StrM("iss", "me")>>, EmptySig)
 NkElems ==
@@ -39,7 +42,18 @@ NkElems ==
     <<[op |-> "CErrClear", c |-> 0]>> }
 RECURSIVE NkSeqs(_)
 NkSeqs(n) == IF n = 0 THEN {<<>>} ELSE { e \o t : e \in NkElems, t \in NkSeqs(n - 1) }
-NoKeyScripts == { <<LoadOp(<<KOct, KShort, K512>>), CNewOp>> \o q : q \in NkSeqs(MaxLen) }
+NoKeyFam == [ab \in NkElems \X NkElems |-> { <<LoadOp(<<KOct, KShort, K512>>), CNewOp>> \o ab[1] \o ab[2] \o q : q \in NkSeqs(MaxLen - 2) }]
+
+\* a checker with claim expectations, set, refused (a value that is not UTF-8: the claim stays mandatory
+\* with nothing to compare to) and deleted between calls
+Other == Tok("HS256", <<>>, <<StrM("iss", "you")>>, Sig("valid", "HS256", KOct))
+ClElems ==
+  { <<V(Good)>>, <<V(Other)>>, <<V(Tok("HS256", <<>>, <<>>, Sig("valid", "HS256", KOct)))>>,
+    <<CClaimSetOp("iss", "me")>>, <<CClaimSetOp("iss", "#hex:fffe")>>, <<CClaimSetOp("sub", "#hex:c0af")>>,
+    <<CClaimDelOp("iss")>>, <<[op |-> "CErrClear", c |-> 0]>> }
+RECURSIVE ClSeqs(_)
+ClSeqs(n) == IF n = 0 THEN {<<>>} ELSE { e \o t : e \in ClElems, t \in ClSeqs(n - 1) }
+ClaimFam == [ab \in ClElems \X ClElems |-> { Pre3 \o ab[1] \o ab[2] \o q : q \in ClSeqs(MaxLen - 2) }]
 
 G == [op |-> "Generate", b |-> 0, slot |-> 0, twin |-> 1]
 Val(t, n, v, r) == [t |-> t, name |-> n, val |-> v, replace |-> r, jcls |-> NONE, jm |-> <<>>, jcanon |-> NONE]
@@ -53,11 +67,12 @@ BdElems ==
     <<[op |-> "BMap", b |-> 0, k |-> "set", which |-> "clm", v |-> Val("str", "sub", "x", 1)], G>> }
 RECURSIVE BdSeqs(_)
 BdSeqs(n) == IF n = 0 THEN {<<>>} ELSE { e \o t : e \in BdElems, t \in BdSeqs(n - 1) }
-BuilderScripts == { <<LoadOp(<<KOct, KShort, K512>>), BNewOp, BSetKeyOp("HS256", 0)>> \o q : q \in BdSeqs(MaxLen) }
-                  \cup { <<LoadOp(<<KOct, KShort, K512>>), BNewOp>> \o q : q \in BdSeqs(IF MaxLen > 3 THEN 3 ELSE MaxLen) }
+BuilderFam == [ab \in BdElems \X BdElems |-> { <<LoadOp(<<KOct, KShort, K512>>), BNewOp, BSetKeyOp("HS256", 0)>> \o ab[1] \o ab[2] \o q : q \in BdSeqs(MaxLen - 2) }]
+BuilderNoKey == { <<LoadOp(<<KOct, KShort, K512>>), BNewOp>> \o q : q \in BdSeqs(IF MaxLen > 3 THEN 3 ELSE MaxLen) }
 
-C13Scripts == CheckerScripts \cup NoKeyScripts \cup BuilderScripts
-MCSpec == ISpecWith(C13Scripts)
+\* (no definition of the union of the families: TLC evaluates constant definitions eagerly, and the union
+\* of big unnormalised sets is quadratic - see ISpecFam in Interp.tla)
+MCSpec == ISpecP(InFam(CheckerFam) \/ InFam(NoKeyFam) \/ InFam(BuilderFam) \/ script \in BuilderNoKey \/ InFam(ClaimFam))
 
 \* ---- on the specification: the configuration a verdict is computed from is
 \* exactly what the configuration calls made it; verify, generate and
@@ -69,6 +84,8 @@ CfgC(s, n, ck, rs) ==
        CASE op.op = "CSetKey" -> LET key == ItemAt(rs, op.ring, op.key) IN
                                   IF RefSetKeyRet("checker", op.alg, key) = 0 THEN [prev EXCEPT !.alg = op.alg, !.key = key] ELSE prev
          [] op.op = "CSetCb" -> [prev EXCEPT !.cb = op.prog, !.hascb = TRUE]
+         [] op.op = "CClaimSet" -> CkAfterClaimSet(prev, op.claim, op.val, ClaimSetRet(op.claim, op.val))
+         [] op.op = "CClaimDel" -> CkAfterClaimDel(prev, op.claim, 0)
          [] OTHER -> prev
 StripErr(o) == [o EXCEPT !.err = 0, !.msg = 0]
 ConfigOnlyFromConfigCalls ==
